@@ -137,6 +137,10 @@ class Down(object):
             a = default
         if self.stalled or self.closed_by_peer:
             return None
+        stray = False
+        if isinstance(a, str) and a.startswith('extra'):
+            # the ordinary answer NNN, and behind it a reply line nobody asked for
+            a, stray = int(a[5:]), True
         self.drv.log(t='peer', stage=stage, i=i, act=a if isinstance(a, str) else 'code', code=a if isinstance(a, int) else 0,
                      conn=self.conn, trans=self.trans, m=self.marker if stage in ('mail', 'rcpt', 'data', 'eod', 'rset') else 0)
         if a == 'stall':
@@ -164,6 +168,9 @@ class Down(object):
             self.out += ''.join('250%s%s\r\n' % ('-' if k < len(lines) - 1 else ' ', ln) for k, ln in enumerate(lines)).encode()
         else:
             self.out += ('%d %s\r\n' % (a, text)).encode()
+        if stray:
+            self.drv.log(t='peer', stage='stray', i=0, act='code', code=250, conn=self.conn, trans=self.trans, m=0)
+            self.out += b'250 stray line m99\r\n'
         self.ev.set()
         self._sync()
         return a
